@@ -197,7 +197,11 @@ def execute_large(case):
         bps = synth.TYPE_INFO[tc]["bps"]
         blob = np.random.default_rng(L).integers(0, 127, size=(L, P * bps), dtype="uint8")
         samples = [blob[k].tobytes() for k in range(L)]
-    im = synth.image_spec("HH", None, L, P, tc, samples=samples)
+    hdr = None
+    if case.get("bursts"):
+        nb, lb = case["bursts"]
+        hdr = {"prefix_suffix_data_locators.number_of_burst_data": nb, "prefix_suffix_data_locators.number_of_lines_per_burst": lb, "scansar_burst_data_information.number_of_overlap_lines_with_adjacent_bursts": 1}
+    im = synth.image_spec("HH", "B2" if hdr else None, L, P, tc, samples=samples, header=hdr)
     spec = synth.product_spec("1.1" if tc == "C*8" else "1.5", images=[im])
     files, _ = synth.build(spec)
     fname = synth.image_name(spec, im)
@@ -207,7 +211,7 @@ def execute_large(case):
         tree = prod.open(use_cache=False, **({"records_per_chunk": rpc} if rpc else {}))
         for b in check_open(list(vfs.LOG), fname, im, rpc or 1024):
             fails.append({"sig": {"kind": "open"}, "detail": f"{tc} {L}x{P} rpc={rpc or 'default'}: {b}", "case": {**case, "fn": "execute_large"}})
-        da = tree["imagery/HH/data"]
+        da = tree["imagery/HH_scan2/data" if hdr else "imagery/HH/data"]
         sels = [0, L // 2, L - 1, slice(None), slice(50, L - 50), slice(1, None), slice(0, L - 1), slice(1020, 1030), slice(1024, 1025), slice(0, L, 1024), slice(L // 3, L // 3 + 5), slice(None, None, 16), slice(None, None, 2), slice(0, 64), slice(0, 128), slice(64, 65), slice(L - 3, None), slice(None, None, -7), [3, L - 2], slice(2, 2)]
         for sel in sels:
             rows = list(range(L))[sel] if isinstance(sel, slice) else ([sel] if isinstance(sel, int) else list(sel))
@@ -279,6 +283,8 @@ def run(res, tier, seed):
         nskip += out["n_skip"]
     large = [{"type": tc, "L": L, "P": P, "rpc": rpc} for tc, L, P in (("IU2", 640, 1000), ("C*8", 320, 600)) for rpc in (None, 64, 1000)]
     large += [{"type": tc, "L": L, "P": P, "rpc": rpc} for tc, L, P in (("IU2", 2500, 8), ("C*8", 2100, 3)) for rpc in (None, 100, 1000, 2048)]
+    # SPECAN-style images with a burst layout that is consistent with the line count: the groups are still those of rpc
+    large += [{"type": tc, "L": nb * lb, "P": 3, "rpc": rpc, "bursts": [nb, lb]} for tc in ("C*8", "IU2") for nb, lb in ((3, 4), (4, 3), (5, 8)) for rpc in (5, 6, 7, 1024)]
     # ~100 MB: selections beyond 64 MiB, requests of 5 / 8 / 80 MB
     large += [{"type": "IU2", "L": 1300, "P": 40000, "rpc": rpc} for rpc in (None, 64, 100)] + [{"type": "C*8", "L": 300, "P": 40000, "rpc": 7}, {"type": "IU2", "L": 5120, "P": 4, "rpc": None}]
     for idx, case, out in core.pool_map(__name__, "execute_large", large, chunksize=1):
